@@ -139,3 +139,21 @@ PROPS["C20"] = {
         {"name": "C20Names", "pkg": COMP, "test": "TestVerifC20Names", "kind": "enum"},
     ],
 }
+
+TR = "internal/tracer"
+
+PROPS["C14"] = {
+    "level": "exploration",
+    "rule": ("request and response bodies built from 0-6 envelope items (flags from {0,1,2,3,0x80,0x81,random}, declared length incl. 0, payloads up to 70 kB, end-stream content in one of 6 encodings, compressed flag set or not), "
+             "under stream and non-stream content types, optionally truncated (inside a prefix, right after a prefix, anywhere) and ended by EOF / EOF-with-data / an injected error / an early Close; driven through the exported wrappers "
+             "TracingRoundTripper (client request+response body) and TracingHandler (server request body + response writer) with two independent partitions of the same bytes into Read/Write calls; "
+             "oracle: (1) event list == reference envelope parser, (2) identical events for both partitions, (3) application/peer observations (bytes, per-call counts, errors, status, headers, trailers, flushes) identical to the unwrapped run, exactly one completed trace. "
+             "Non-trivial: >=2 messages with call boundaries, a zero-length message, an uncompressed end-stream under a non-identity encoding, or a truncation."),
+    "assumptions": ["a cut exactly between prefix and payload (0 payload bytes) may or may not yield a partial event",
+                    "an end-stream event is required only for Connect flag 0x02 / gRPC-Web flag 0x80; for other flag/protocol combinations it is optional",
+                    "if the independent decoder cannot decode a compressed end-stream payload its content is not asserted"],
+    "units": [
+        {"name": "C14Bodies", "pkg": TR, "test": "TestVerifC14Bodies", "kind": "rapid",
+         "checks": {"quick": 6000, "thorough": 80000}, "shards": {"quick": 4, "thorough": 16}},
+    ],
+}
